@@ -1,5 +1,5 @@
-(* ChannelSchedProofs.v — invariant of Model/ChannelSched.v on the runs on which the renewal gate works as intended
-   (renew_ok), for any number of sender threads and any number of renewals. *)
+(* ChannelSchedProofs.v — invariant of Model/ChannelSched.v over EVERY run: any number of sender threads, any
+   number of renewals (succeeding or failing), every interleaving. *)
 From Coq Require Import ZArith List Bool Lia PeanoNat.
 From Opcua Require Import Gen.ArithFromGo Model.ChannelSched.
 Import ListNotations.
@@ -64,7 +64,7 @@ Definition live (s : st) : iid := match r s with RCopied _ j _ | ROpnSent _ j =>
 Definition inst_of (pc : spc) : option iid :=
   match pc with SHasInst _ i | SCounted _ i _ | SWriting _ i _ _ | SWritten i => Some i | _ => None end.
 Definition in_flight (pc : spc) : bool :=
-  match pc with SCounted _ _ _ | SWriting _ _ _ _ | SWritten _ | SUnlocked => true | _ => false end.
+  match pc with SPassed _ | SHasInst _ _ | SCounted _ _ _ | SWriting _ _ _ _ | SWritten _ | SUnlocked => true | _ => false end.
 Definition quiet (pc : spc) : bool := match pc with SStart _ | SDone => true | _ => false end.
 Definition holds (pc : spc) : option iid := match pc with SWriting _ i _ _ | SWritten i => Some i | _ => None end.
 
@@ -81,7 +81,6 @@ Record inv (s : st) : Prop := {
   J5a : (active s < ninst s)%nat;
   J5b : forall i j id, r s = RCopied i j id \/ r s = ROpnSent i j -> (active s < j)%nat /\ (j < ninst s)%nat;
   J5c : forall i j, r s = RInstalled i j -> active s = j;
-  J5d : forall i j, r s <> RFailed i j;
   J6 : consecutive_rev (wire_rev s) = true;
   J6h : forall c rest, wire_rev s = c :: rest -> c_seq c = iseq s (live s);
   J7 : contiguous_rev (wire_rev s) = true;
@@ -104,17 +103,16 @@ Proof.
   - lia.
   - intros i j id [H|H]; discriminate.
   - discriminate.
-  - discriminate.
   - reflexivity.
   - discriminate.
   - reflexivity.
   - discriminate.
 Qed.
 
-Lemma quiet_facts : forall pc, quiet pc = true -> inst_of pc = None /\ holds pc = None /\ in_flight pc = false /\ in_window pc = false.
+Lemma quiet_facts : forall pc, quiet pc = true -> inst_of pc = None /\ holds pc = None /\ in_flight pc = false.
 Proof. destruct pc; cbn; intros; try discriminate; auto. Qed.
 
-Lemma partition_pc : forall pc, in_flight pc = false -> in_window pc = false -> quiet pc = true.
+Lemma partition_pc : forall pc, in_flight pc = false -> quiet pc = true.
 Proof. destruct pc; cbn; intros; try discriminate; auto. Qed.
 
 (* a sender step that leaves every shared field except ss (and possibly pending / next_req / ilock / wire) alone:
@@ -145,9 +143,9 @@ Proof. reflexivity. Qed.
 Ltac fin5b := solve [intros ? ? ? [?H|?H]; inversion H; subst; try lia; try discriminate].
 Ltac finJ5 := solve [intros ? ?H; inversion H; reflexivity].
 
-Lemma step_inv : forall s e s', inv s -> renew_ok s e = true -> step s e = Some s' -> inv s'.
+Lemma step_inv : forall s e s', inv s -> step s e = Some s' -> inv s'.
 Proof.
-  intros s e s' I Ok St.
+  intros s e s' I St.
   destruct e; cbn in St.
   - (* ESpawn *)
     inversion St; subst; clear St.
@@ -161,7 +159,6 @@ Proof.
     + exact (J5a _ I).
     + exact (J5b _ I).
     + exact (J5c _ I).
-    + exact (J5d _ I).
     + exact (J6 _ I).
     + exact (J6h _ I).
     + exact (J7 _ I).
@@ -183,7 +180,6 @@ Proof.
     + exact (J5a _ I).
     + exact (J5b _ I).
     + exact (J5c _ I).
-    + exact (J5d _ I).
     + exact (J6 _ I).
     + exact (J6h _ I).
     + exact (J7 _ I).
@@ -204,14 +200,13 @@ Proof.
     + exact (J5a _ I).
     + exact (J5b _ I).
     + exact (J5c _ I).
-    + exact (J5d _ I).
     + exact (J6 _ I).
     + exact (J6h _ I).
     + exact (J7 _ I).
     + intros c rest Hw Hf. destruct (J7h _ I _ _ Hw Hf) as (t0 & n0 & id & k & A & B & C).
       exists t0, n0, id, k. repeat split; try assumption.
       destruct (Nat.eq_dec t0 t) as [->|NE]; [congruence|rewrite nth_upd_other by assumption; exact C].
-  - (* ECount *)
+  - (* EId *)
     unfold sstep in St. destruct (nth_error (ss s) t) as [pc|] eqn:Ht; try discriminate.
     destruct pc; try discriminate. inversion St; subst; clear St.
     assert (NM : mid (r s) = false) by (eapply not_mid_if_not_quiet; [exact I|exact Ht|reflexivity]).
@@ -225,7 +220,6 @@ Proof.
     + exact (J5a _ I).
     + exact (J5b _ I).
     + exact (J5c _ I).
-    + exact (J5d _ I).
     + exact (J6 _ I).
     + exact (J6h _ I).
     + exact (J7 _ I).
@@ -248,7 +242,6 @@ Proof.
     + exact (J5a _ I).
     + exact (J5b _ I).
     + exact (J5c _ I).
-    + exact (J5d _ I).
     + exact (J6 _ I).
     + exact (J6h _ I).
     + exact (J7 _ I).
@@ -276,7 +269,6 @@ Proof.
     + exact (J5a _ I).
     + exact (J5b _ I).
     + exact (J5c _ I).
-    + exact (J5d _ I).
     + destruct (wire_rev s) as [|p rest] eqn:W; [reflexivity|].
       rewrite consec_cons. cbn [c_seq]. rewrite (J6h _ I _ _ W), LA, Z.eqb_refl. pose proof (J6 _ I) as X. rewrite W in X. exact X.
     + intros c rest Hw. inversion Hw; subst; clear Hw. cbn.
@@ -306,7 +298,6 @@ Proof.
     + exact (J5a _ I).
     + exact (J5b _ I).
     + exact (J5c _ I).
-    + exact (J5d _ I).
     + exact (J6 _ I).
     + exact (J6h _ I).
     + exact (J7 _ I).
@@ -327,7 +318,6 @@ Proof.
     + exact (J5a _ I).
     + exact (J5b _ I).
     + exact (J5c _ I).
-    + exact (J5d _ I).
     + exact (J6 _ I).
     + exact (J6h _ I).
     + exact (J7 _ I).
@@ -336,40 +326,38 @@ Proof.
       destruct (Nat.eq_dec t0 t) as [->|NE]; [congruence|rewrite nth_upd_other by assumption; exact C].
   - (* ERenStart *)
     destruct (r s) eqn:R; try discriminate. inversion St; subst; clear St.
-    pose proof I as [A1 A2 A2g A3 A4 A5 A5a A5b A5c A5d A6 A6h A7 A7h]. unfold live in A6h. rewrite R in *. cbn in *.
+    pose proof I as [A1 A2 A2g A3 A4 A5 A5a A5b A5c A6 A6h A7 A7h]. unfold live in A6h. rewrite R in *. cbn in *.
     constructor; cbn; auto; try discriminate; try congruence.
     all: try fin5b. all: try finJ5.
   - (* ERenGate *)
     destruct (r s) eqn:R; try discriminate. inversion St; subst; clear St.
-    pose proof I as [A1 A2 A2g A3 A4 A5 A5a A5b A5c A5d A6 A6h A7 A7h]. unfold live in A6h. rewrite R in *. cbn in *.
+    pose proof I as [A1 A2 A2g A3 A4 A5 A5a A5b A5c A6 A6h A7 A7h]. unfold live in A6h. rewrite R in *. cbn in *.
     constructor; cbn; auto; try discriminate; try congruence.
     all: try fin5b. all: try finJ5.
   - (* ERenDrain *)
     destruct (r s) eqn:R; try discriminate. destruct (Nat.eqb_spec (pending s) 0) as [P0|]; try discriminate.
-    inversion St; subst; clear St. cbn in Ok. apply negb_true_iff in Ok.
-    pose proof I as [A1 A2 A2g A3 A4 A5 A5a A5b A5c A5d A6 A6h A7 A7h]. unfold live in A6h. rewrite R in *. cbn in *.
+    inversion St; subst; clear St.
+    pose proof I as [A1 A2 A2g A3 A4 A5 A5a A5b A5c A6 A6h A7 A7h]. unfold live in A6h. rewrite R in *. cbn in *.
     constructor; cbn; auto; try discriminate; try congruence.
     all: try fin5b. all: try finJ5.
-    + intros _ t pc H. apply partition_pc.
-      * eapply count_zero; [|exact H]. congruence.
-      * eapply existsb_false_nth; eassumption.
+    + intros _ t pc H. apply partition_pc. eapply count_zero; [|exact H]. congruence.
   - (* ERenLock *)
     destruct (r s) eqn:R; try discriminate. destruct (ilock s i) eqn:L; try discriminate.
     inversion St; subst; clear St.
-    pose proof I as [A1 A2 A2g A3 A4 A5 A5a A5b A5c A5d A6 A6h A7 A7h]. unfold live in A6h. rewrite R in *. cbn in *.
+    pose proof I as [A1 A2 A2g A3 A4 A5 A5a A5b A5c A6 A6h A7 A7h]. unfold live in A6h. rewrite R in *. cbn in *.
     constructor; cbn; auto; try discriminate; try congruence.
     all: try fin5b. all: try finJ5.
     + intros t pc i0 H Hi. pose proof (A2 eq_refl _ _ H) as Q. apply quiet_facts in Q. destruct Q as (_ & Q & _). congruence.
   - (* ERenCopy *)
     destruct (r s) eqn:R; try discriminate. inversion St; subst; clear St.
-    pose proof I as [A1 A2 A2g A3 A4 A5 A5a A5b A5c A5d A6 A6h A7 A7h]. unfold live in A6h. rewrite R in *. cbn in *.
+    pose proof I as [A1 A2 A2g A3 A4 A5 A5a A5b A5c A6 A6h A7 A7h]. unfold live in A6h. rewrite R in *. cbn in *.
     pose proof (A5 _ eq_refl) as Ei. subst i.
     constructor; cbn; auto; try discriminate; try congruence.
     all: try fin5b. all: try finJ5.
     + intros c rest Hw. unfold updI. rewrite Nat.eqb_refl. exact (A6h _ _ Hw).
   - (* ERenOpn *)
     destruct (r s) eqn:R; try discriminate. inversion St; subst; clear St.
-    pose proof I as [A1 A2 A2g A3 A4 A5 A5a A5b A5c A5d A6 A6h A7 A7h]. unfold live in A6h. rewrite R in *. cbn in *.
+    pose proof I as [A1 A2 A2g A3 A4 A5 A5a A5b A5c A6 A6h A7 A7h]. unfold live in A6h. rewrite R in *. cbn in *.
     pose proof (A5 _ eq_refl) as Ei. subst i.
     constructor; cbn -[consecutive_rev contiguous_rev]; auto; try discriminate; try congruence.
     all: try fin5b. all: try finJ5.
@@ -384,61 +372,50 @@ Proof.
     + intros c rest Hw Hf. inversion Hw; subst. discriminate.
   - (* ERenInstall *)
     destruct (r s) eqn:R; try discriminate. inversion St; subst; clear St.
-    pose proof I as [A1 A2 A2g A3 A4 A5 A5a A5b A5c A5d A6 A6h A7 A7h]. unfold live in A6h. rewrite R in *. cbn in *.
+    pose proof I as [A1 A2 A2g A3 A4 A5 A5a A5b A5c A6 A6h A7 A7h]. unfold live in A6h. rewrite R in *. cbn in *.
     destruct (A5b i j 0 (or_intror eq_refl)) as [B1 B2].
     constructor; cbn; auto; try discriminate; try congruence.
     all: try fin5b. all: try finJ5.
     + intros t pc i0 H Hi. pose proof (A2 eq_refl _ _ H) as Q. apply quiet_facts in Q. destruct Q as (Q & _). congruence.
     + intros c rest Hw Hf. destruct (A7h _ _ Hw Hf) as (t0 & n0 & id0 & k0 & _ & _ & C).
       pose proof (A2 eq_refl _ _ C) as Q. discriminate.
-  - (* ERenFail *) cbn in Ok. discriminate.
-  - (* ERenUnlock *)
-    pose proof I as [A1 A2 A2g A3 A4 A5 A5a A5b A5c A5d A6 A6h A7 A7h].
-    destruct (r s) eqn:R; try discriminate; inversion St; subst; clear St; [|exfalso; eapply A5d; reflexivity].
-    unfold live in A6h. rewrite R in *. cbn in *. pose proof (A5c _ _ eq_refl) as Ej.
+  - (* ERenFail *)
+    destruct (r s) eqn:R; try discriminate. inversion St; subst; clear St.
+    pose proof I as [A1 A2 A2g A3 A4 A5 A5a A5b A5c A6 A6h A7 A7h]. unfold live in A6h. rewrite R in *. cbn in *.
+    pose proof (A5 _ eq_refl) as Ei. subst i.
     constructor; cbn; auto; try discriminate; try congruence.
     all: try fin5b. all: try finJ5.
-    + intros t pc i0 H Hi. unfold updI. destruct (Nat.eqb_spec i0 i); [|eapply A4; eassumption].
+    + intros c rest Hw. unfold updI. rewrite Nat.eqb_refl. exact (A6h _ _ Hw).
+  - (* ERenUnlock *)
+    pose proof I as [A1 A2 A2g A3 A4 A5 A5a A5b A5c A6 A6h A7 A7h].
+    destruct (r s) eqn:R; try discriminate; inversion St; subst; clear St.
+    + unfold live in A6h. rewrite R in *. cbn in *. pose proof (A5c _ _ eq_refl) as Ej.
+      constructor; cbn; auto; try discriminate; try congruence.
+      all: try fin5b. all: try finJ5.
+      intros t pc i0 H Hi. unfold updI. destruct (Nat.eqb_spec i0 i); [|eapply A4; eassumption].
+      pose proof (A2 eq_refl _ _ H) as Q. apply quiet_facts in Q. destruct Q as (_ & Q & _). congruence.
+    + unfold live in A6h. rewrite R in *. cbn in *.
+      constructor; cbn; auto; try discriminate; try congruence.
+      all: try fin5b. all: try finJ5.
+      intros t pc i0 H Hi. unfold updI. destruct (Nat.eqb_spec i0 i); [|eapply A4; eassumption].
       pose proof (A2 eq_refl _ _ H) as Q. apply quiet_facts in Q. destruct Q as (_ & Q & _). congruence.
 Qed.
 
-Lemma runP_inv : forall evs s s', inv s -> runP renew_ok evs s = Some s' -> inv s'.
+Lemma runP_inv : forall P evs s s', inv s -> runP P evs s = Some s' -> inv s'.
 Proof.
   induction evs as [|e rest IH]; cbn; intros s s' I R.
   - inversion R; subst; exact I.
-  - destruct (renew_ok s e) eqn:Ok; try discriminate. destruct (step s e) eqn:E; try discriminate.
+  - destruct (P s e); try discriminate. destruct (step s e) eqn:E; try discriminate.
     eapply IH; [eapply step_inv; eassumption|exact R].
 Qed.
 
-Lemma reachable_ok_inv : forall a b s, reachableP renew_ok a b s -> inv s.
-Proof. intros a b s [evs R]. eapply runP_inv; [apply inv_init|exact R]. Qed.
+Lemma reachableP_inv : forall P a b s, reachableP P a b s -> inv s.
+Proof. intros P a b s [evs R]. eapply runP_inv; [apply inv_init|exact R]. Qed.
 
-Lemma runP_weaken : forall (P Q : st -> ev -> bool), (forall s e, P s e = true -> Q s e = true) ->
-  forall evs s s', runP P evs s = Some s' -> runP Q evs s = Some s'.
-Proof.
-  intros P Q PQ. induction evs as [|e rest IH]; cbn; intros s s' R; [exact R|].
-  destruct (P s e) eqn:Pe; try discriminate. rewrite (PQ _ _ Pe).
-  destruct (step s e); try discriminate. apply IH; exact R.
-Qed.
-
-(* on the runs on which the gate works as intended: numbers are consecutive and messages are not interleaved *)
-Lemma wire_ok_partial : forall a b s, reachableP renew_ok a b s ->
+(* EVERY run: numbers are consecutive and messages are not interleaved *)
+Lemma wire_ok_full : forall a b s, reachable a b s ->
   consecutive_rev (wire_rev s) = true /\ contiguous_rev (wire_rev s) = true.
-Proof. intros a b s R. pose proof (reachable_ok_inv _ _ _ R) as I. split; [exact (J6 _ I)|exact (J7 _ I)]. Qed.
-
-(* a channel that never renews (the server's channel, or a client channel between renewals) *)
-Definition no_renew (_ : st) (e : ev) : bool :=
-  match e with
-  | ERenStart | ERenGate | ERenDrain | ERenLock | ERenCopy | ERenOpn | ERenInstall | ERenFail | ERenUnlock => false
-  | _ => true
-  end.
-
-Lemma wire_ok_no_renewal : forall a b s, reachableP no_renew a b s ->
-  consecutive_rev (wire_rev s) = true /\ contiguous_rev (wire_rev s) = true.
-Proof.
-  intros a b s [evs R]. apply (wire_ok_partial a b). exists evs.
-  eapply runP_weaken; [|exact R]. intros s0 e H. destruct e; cbn in *; try discriminate; reflexivity.
-Qed.
+Proof. intros a b s R. pose proof (reachableP_inv _ _ _ _ R) as I. split; [exact (J6 _ I)|exact (J7 _ I)]. Qed.
 
 (* the sequence counter step: +1, wrapping to 1 above 2^32 - 1024 (Part 6, 6.7.2.4).
    (x = 2^32 - 1 itself is not a value the counter can take: every step yields at most 2^32 - 1024.) *)
@@ -452,6 +429,57 @@ Qed.
 
 (* ---------------------------------------------------------------- C16: no chunk under a superseded token *)
 
+Ltac sender_case St :=
+  unfold sstep in St;
+  match type of St with context [nth_error ?l ?t] =>
+    let pc := fresh "pc" in
+    destruct (nth_error l t) as [pc|] eqn:Ht; [|discriminate]; destruct pc; try discriminate
+  end.
+
+(* every chunk of every run is secured by the instance that was installed when it was written, or a newer one *)
+Lemma step_not_superseded : forall s e s', inv s -> forallb not_superseded (wire_rev s) = true ->
+  step s e = Some s' -> forallb not_superseded (wire_rev s') = true.
+Proof.
+  intros s e s' I F St.
+  destruct e; cbn in St.
+  - inversion St; subst. exact F.
+  - sender_case St. destruct (gate s); try discriminate. inversion St; subst. exact F.
+  - sender_case St. inversion St; subst. exact F.
+  - sender_case St. inversion St; subst. exact F.
+  - sender_case St. destruct (ilock s i); try discriminate. inversion St; subst. exact F.
+  - sender_case St. inversion St; subst; clear St.
+    assert (Ei : i = active s) by (eapply (J1 _ I); [exact Ht|reflexivity]). subst i.
+    cbn. rewrite F. unfold not_superseded. cbn. rewrite Nat.leb_refl. reflexivity.
+  - sender_case St. inversion St; subst. exact F.
+  - sender_case St. inversion St; subst. exact F.
+  - destruct (r s); try discriminate. inversion St; subst. exact F.
+  - destruct (r s); try discriminate. inversion St; subst. exact F.
+  - destruct (r s); try discriminate. destruct (Nat.eqb (pending s) 0); try discriminate. inversion St; subst. exact F.
+  - destruct (r s); try discriminate. destruct (ilock s i); try discriminate. inversion St; subst. exact F.
+  - destruct (r s); try discriminate. inversion St; subst. exact F.
+  - destruct (r s) eqn:R; try discriminate. inversion St; subst; clear St.
+    destruct (J5b _ I i j id (or_introl R)) as [B1 B2].
+    cbn. rewrite F. unfold not_superseded. cbn. rewrite andb_true_r. apply Nat.leb_le. lia.
+  - destruct (r s); try discriminate. inversion St; subst. exact F.
+  - destruct (r s); try discriminate. inversion St; subst. exact F.
+  - destruct (r s); try discriminate; inversion St; subst; exact F.
+Qed.
+
+Lemma not_superseded_full : forall a b s, reachable a b s -> forallb not_superseded (wire_rev s) = true.
+Proof.
+  intros a b s [evs R].
+  assert (G : forall evs s0 s1, inv s0 -> forallb not_superseded (wire_rev s0) = true -> run evs s0 = Some s1 ->
+              forallb not_superseded (wire_rev s1) = true).
+  { unfold run. induction evs0 as [|e rest IH]; cbn; intros s0 s1 I F R0.
+    - inversion R0; subst; exact F.
+    - destruct (step s0 e) eqn:E; try discriminate.
+      eapply IH; [eapply step_inv; eassumption|eapply step_not_superseded; eassumption|exact R0]. }
+  exact (G evs _ _ (inv_init a b) eq_refl R).
+Qed.
+
+(* when no renewal fails the instances along the wire never go back *)
+Definition no_fail (_ : st) (e : ev) : bool := match e with ERenFail => false | _ => true end.
+
 Definition inv2 (s : st) : Prop :=
   tokens_monotone_rev (wire_rev s) = true /\ forall c rest, wire_rev s = c :: rest -> (c_inst c <= live s)%nat.
 
@@ -462,14 +490,7 @@ Proof. reflexivity. Qed.
 Lemma inv2_frame : forall s s', wire_rev s' = wire_rev s -> live s' = live s -> inv2 s -> inv2 s'.
 Proof. intros s s' W L [A B]. split; rewrite W; [exact A|]. intros c rest H. rewrite L. eapply B; exact H. Qed.
 
-Ltac sender_case St :=
-  unfold sstep in St;
-  match type of St with context [nth_error ?l ?t] =>
-    let pc := fresh "pc" in
-    destruct (nth_error l t) as [pc|] eqn:Ht; [|discriminate]; destruct pc; try discriminate
-  end.
-
-Lemma step_inv2 : forall s e s', inv s -> inv2 s -> renew_ok s e = true -> step s e = Some s' -> inv2 s'.
+Lemma step_inv2 : forall s e s', inv s -> inv2 s -> no_fail s e = true -> step s e = Some s' -> inv2 s'.
 Proof.
   intros s e s' I I2 Ok St.
   destruct e; cbn in St.
@@ -513,18 +534,17 @@ Proof.
     apply (inv2_frame s); [reflexivity| |exact I2]. unfold live. cbn. rewrite R. reflexivity.
   - cbn in Ok. discriminate.
   - (* ERenUnlock *)
-    destruct (r s) eqn:R; try discriminate; inversion St; subst; clear St.
-    + apply (inv2_frame s); [reflexivity| |exact I2]. unfold live. cbn. rewrite R. reflexivity.
-    + exfalso. eapply (J5d _ I). exact R.
+    destruct (r s) eqn:R; try discriminate; inversion St; subst; clear St;
+      (apply (inv2_frame s); [reflexivity| |exact I2]; unfold live; cbn; rewrite R; reflexivity).
 Qed.
 
-Lemma tokens_ok_partial : forall a b s, reachableP renew_ok a b s -> tokens_monotone_rev (wire_rev s) = true.
+Lemma tokens_monotone_no_fail : forall a b s, reachableP no_fail a b s -> tokens_monotone_rev (wire_rev s) = true.
 Proof.
   intros a b s [evs R].
-  assert (G : forall evs s0 s1, inv s0 -> inv2 s0 -> runP renew_ok evs s0 = Some s1 -> inv2 s1).
+  assert (G : forall evs s0 s1, inv s0 -> inv2 s0 -> runP no_fail evs s0 = Some s1 -> inv2 s1).
   { induction evs0 as [|e rest IH]; cbn; intros s0 s1 I I2 R0.
     - inversion R0; subst; exact I2.
-    - destruct (renew_ok s0 e) eqn:Ok; try discriminate. destruct (step s0 e) eqn:E; try discriminate.
+    - destruct (no_fail s0 e) eqn:Ok; try discriminate. destruct (step s0 e) eqn:E; try discriminate.
       eapply IH; [eapply step_inv; eassumption|eapply step_inv2; eassumption|exact R0]. }
   refine (proj1 (G evs _ _ (inv_init a b) _ R)). split; [reflexivity|]. intros c rest H. cbn in H. discriminate.
 Qed.
